@@ -96,6 +96,18 @@ def execute(p, res):
         for a in range(p["blk"], N, p["nblocks"]):
             for b in range(N):
                 _poly_pair(res, BP, a, b, cfg)
+            # results are values: the objects returned for every b (with ONE left operand object) are re-read after all calls were made
+            A1 = BP(a)
+            kept = []
+            for b in range(1, N):
+                B1 = BP(b)
+                kept.append((b, B1, A1 * B1, A1 % B1, A1.gcd(B1), A1.div(B1), A1.lcm(B1)))
+            for b, B1, pr, md, gc, qu, sm in kept:
+                want = (P.mul(a, b), P.mod(a, b), P.gcd(a, b), P.divmod2(a, b)[0], P.lcm(a, b))
+                got = (pr.value, md.value, gc.value, qu.value, sm.value)
+                if got != want or A1.value != a or B1.value != b:
+                    res.viol("poly", cfg, "value-semantics", f"a={a}, b={b}: results (product, remainder, gcd, quotient, lcm) read {got} after later calls, expected {want}; operands now read ({A1.value}, {B1.value})", [a, b])
+                    break
             # unary
             A = BP(a)
             if A.derivative().value != P.derivative(a):
